@@ -1,9 +1,53 @@
 (* C19 — watch coverage and continuity under reconnects, 410s, pauses and cluster changes.
-   Only statements here; proofs in Proofs/Ensemble.v, Proofs/Watch.v, Proofs/WatchWorld.v.
-   Models: Model/Ensemble.v (orchestration.adjust_tasks, observation.revise_namespaces),
-           Model/Watch.v (infinite_watch/streaming_block/continuous_watch/watch_objs + the API server). *)
+   Only statements here; proofs in Proofs/Ensemble.v, Proofs/EnsembleToggles.v, Proofs/Watch.v, Proofs/WatchWorld.v,
+   Proofs/WatchLive.v, Proofs/C19Examples.v.
+   Models: Model/Ensemble.v (orchestration.adjust_tasks incl. the conflict toggles, observation.revise_namespaces and
+           _update_resources, references.match_namespace),
+           Model/Watch.v (infinite_watch/streaming_block/continuous_watch/watch_objs/api.stream + the API server,
+           api.iter_jsonlines).
+
+   CLAUSE AUDIT (statement and quantifier of C19 in properties.jsonl)
+   ---------------------------------------------------------------------------------------------------------------
+   clause                                             | stated by
+   ---------------------------------------------------------------------------------------------------------------
+   Q1 "every history of namespace/CRD additions and   | all coverage theorems quantify over every list of insights
+       removals"                                      | (run_adjust hs); insights from cluster events: namespaces in full
+                                                      | (C19_namespace_insights), kinds via _update_resources
+                                                      | (C19_update_resources, selectors = oracle); the later filters of
+                                                      | revise_resources (ambiguous / unsuitable kinds) NOT COVERED by proof,
+                                                      | monitored only (whole-operator scenarios, connection-table)
+   S1 "exactly one watch per served pair"             | FULL: C19_served_pairs_watched (at least one), C19_no_duplicate_task
+                                                      | (at most one). "active" = key in the task map; a watcher task that DIED
+                                                      | (F10, property C20) stays in the map: liveness of the task is monitored
+                                                      | only (live stub tasks per key; FakeAPI connection table)
+   S1' the watch is really open (not held by a pause) | FULL: C19_toggles_exact, C19_removed_key_no_toggle,
+       unless a live peer blocks                      | C19_paused_iff_current_blocker
+   S2 "and none for anything else"                    | exact characterisation C19_watchers_after_adjust (full);
+                                                      | C19_one_watch_per_pair_refuted (corners O2, O2b, P — observations, no
+                                                      | finding: C19_cluster_scoped_corner, _clusterwide_switch_, _peering_) +
+                                                      | C19_one_watch_per_pair_partial (state guards) and, NEW, from hypotheses
+                                                      | on the inputs only: C19_one_watch_per_pair_history
+   S3 "every object change reaches processing"        | FULL safety: C19_no_change_skipped, C19_accepted_line_is_yielded;
+       across disconnects, timeouts, bookmarks, 410   | FULL progress, NEW: C19_catch_up (from EVERY reachable live un-paused
+                                                      | state a fault-free continuation covers every change; subsumes
+                                                      | C19_relist_catches_up / C19_stream_catches_up, kept); bytes->lines:
+                                                      | C19_lines_chunking_independent, C19_lines_exact
+   S4 "re-listed or resumed from the latest version   | FULL: C19_resume_from_latest (any server), C19_watch_request_skips_nothing
+       seen, never one that skips changes"            |
+   S5 "an unknown error event is never silently       | FULL: C19_unknown_error_raises, C19_failure_is_raised
+       skipped"                                       | (HTTP-level 410 on the request: C19_http_410_corner, observation O3)
+   S6 "while paused nothing is listed or watched"     | C19_paused_no_requests_refuted (finding F1901) + _partial (guard = exactly
+                                                      | F1901's retry attempts) + _without_retries (full when no retry budget)
+   S7 "watching restarts with a fresh listing on      | FULL safety: C19_fresh_list_on_resume, C19_list_unpaused_or_retry;
+       resume"                                        | progress, NEW: C19_resume_catches_up
+   Q2 "every sequence of stream faults at every       | the label alphabet of Model/Watch.v (LFault x6, LEnd x6, LLine err/unknown,
+       position, every pause/resume timing"           | retries) — every theorem is for all label lists; timing = label order
+   not covered by proof: real TCP/aiohttp buffering; Selector.select; watcher-task death (C20); the composition
+   "Ensemble.paused_on drives Watch.cstate.paused" is by reading (operator_paused is the same ToggleSet object).
+   --------------------------------------------------------------------------------------------------------------- *)
 From Coq Require Import ZArith List String Bool.
-From KV Require Import Model.Ensemble Model.Watch Proofs.Ensemble Proofs.EnsembleToggles Proofs.Watch Proofs.WatchWorld.
+From KV Require Import Model.Ensemble Model.Watch Proofs.Ensemble Proofs.EnsembleToggles Proofs.Watch Proofs.WatchWorld
+  Proofs.WatchLive Proofs.C19Examples.
 Import ListNotations.
 Open Scope Z_scope.
 
@@ -71,6 +115,35 @@ Theorem C19_one_watch_per_pair_partial : forall hs i,
 Proof. exact history_exact. Qed.
 Print Assumptions C19_one_watch_per_pair_partial.
 
+(* the same from hypotheses on the INPUTS only — nothing about the ensemble's state:
+   H1 some namespace is served now; H2 cluster-wide serving, once on, is still on (kopf fixes `clusterwide` per process);
+   H3 a peering resource that was ever watched is still watched.  Each hypothesis excludes exactly one corner above. *)
+Theorem C19_one_watch_per_pair_history : forall hs i,
+  namespaces i <> [] ->
+  (forall j, In j hs -> In None (namespaces j) -> In None (namespaces i)) ->
+  (forall j r, In j hs -> In r (peering i) -> In r (watched j) -> In r (watched i)) ->
+  forall k, In k (watchers (run_adjust (hs ++ [i]))) <-> In k (served i).
+Proof. exact history_exact_inputs. Qed.
+Print Assumptions C19_one_watch_per_pair_history.
+
+Example C19_history_hypotheses_satisfiable :
+  let i1 := {| watched := [r_cluster; r_spaced]; namespaces := [Some "ns1"; Some "ns2"]%string; peering := [r_peer] |} in
+  let i2 := {| watched := [r_cluster]; namespaces := [Some "ns2"; Some "ns3"]%string; peering := [r_peer] |} in
+  namespaces i2 <> [] /\
+  (forall j, In j [i1] -> In None (namespaces j) -> In None (namespaces i2)) /\
+  (forall j r, In j [i1] -> In r (peering i2) -> In r (watched j) -> In r (watched i2)) /\
+  watchers (run_adjust [i1; i2]) = [(r_cluster, None)] /\ served i2 = [(r_cluster, None); (r_cluster, None)].
+Proof. exact history_inputs_example. Qed.
+Print Assumptions C19_history_hypotheses_satisfiable.
+
+Example C19_served_hypotheses_satisfiable :
+  let i1 := {| watched := [r_spaced]; namespaces := [Some "ns1"; Some "ns2"]%string; peering := [] |} in
+  let i2 := {| watched := [r_spaced; r_cluster]; namespaces := [Some "ns2"%string]; peering := [] |} in
+  In (r_spaced, Some "ns2"%string) (served i2) /\ In (r_cluster, None) (served i2) /\
+  List.length (watchers (run_adjust [i1])) = 2%nat.
+Proof. exact served_hypotheses. Qed.
+Print Assumptions C19_served_hypotheses_satisfiable.
+
 (* non-vacuity: the guards hold in a history where a namespace and a kind disappear *)
 Example C19_guards_satisfiable :
   let i1 := {| watched := [r_cluster; r_spaced]; namespaces := [Some "ns1"; Some "ns2"]%string; peering := [] |} in
@@ -100,6 +173,25 @@ Theorem C19_namespace_insights : forall nss e,
   (forall n, n <> Some (ne_name e) -> (In n (revise_one nss e) <-> In n nss)).
 Proof. exact namespace_insights. Qed.
 Print Assumptions C19_namespace_insights.
+
+(* the kinds dimension after a (re)scan of API group g (None = everything): a kind is in it iff the selectors select it
+   from the fresh scan, or it belongs to another group and was there before; a kind that the scan no longer shows leaves *)
+Theorem C19_update_resources : forall g rs selected x,
+  In x (update_resources g rs selected) <-> In x selected \/ (In x rs /\ in_group g x = false).
+Proof. exact update_resources_spec. Qed.
+Print Assumptions C19_update_resources.
+
+Theorem C19_update_resources_gone : forall g rs selected x,
+  in_group g x = true -> ~ In x selected -> ~ In x (update_resources g rs selected).
+Proof. exact update_resources_gone. Qed.
+Print Assumptions C19_update_resources_gone.
+
+Example C19_update_resources_hypotheses_satisfiable :
+  let x := ("a.dev"%string, r_cluster) in let y := ("a.dev"%string, r_spaced) in let z := ("b.dev"%string, r_spaced) in
+  in_group (Some "a.dev"%string) x = true /\ ~ In x [y] /\
+  gres_same (update_resources (Some "a.dev"%string) [x; z] [y]) [y; z] = true.
+Proof. exact update_resources_hypotheses. Qed.
+Print Assumptions C19_update_resources_hypotheses_satisfiable.
 
 (* ======================= the conflict toggles: paused only by a CURRENT peering ======================= *)
 
@@ -195,6 +287,65 @@ Theorem C19_stream_catches_up : forall retries pa v0 tr w rv,
     (forall ch, In ch (log (sv w')) -> covered (tr ++ tr') ch).
 Proof. exact stream_catches_up. Qed.
 Print Assumptions C19_stream_catches_up.
+
+(* PROGRESS FROM EVERY STATE: for every reachable state of the closed system in which the operator is not paused and the
+   stream has not failed — in the middle of a listing, a retry back-off, a request in flight, an open or a just-closed
+   stream, after a 410, a 429, a pause — there is a fault-free continuation (only requests, successful responses, event
+   lines in server order, yields, and the client's own close) that the system accepts, which does not change the server's
+   data, and after which the client's position is at or above every change and every change is covered. *)
+Theorem C19_catch_up : forall retries pa v0 tr w,
+  wrun retries (winit pa v0) tr = Some w ->
+  paused (cl w) = false -> ph (cl w) <> PFail -> ph (cl w) <> PDead ->
+  exists tr' w' v',
+    wrun retries w tr' = Some w' /\ forallb quiet tr' = true /\
+    log (sv w') = log (sv w) /\ cur (sv w') = cur (sv w) /\ paused (cl w') = false /\
+    position (ph (cl w')) = Some (Some v') /\
+    (forall ch, In ch (log (sv w')) -> c_rv ch <= v') /\
+    (forall ch, In ch (log (sv w')) -> covered (tr ++ tr') ch).
+Proof. exact catch_up. Qed.
+Print Assumptions C19_catch_up.
+
+(* ... in particular right after a Resume: watching restarts and catches up *)
+Theorem C19_resume_catches_up : forall retries pa v0 tr w w1,
+  wrun retries (winit pa v0) tr = Some w -> paused (cl w) = true -> ph (cl w) <> PFail -> ph (cl w) <> PDead ->
+  wstep retries w (WC LResume) = Some w1 ->
+  exists tr' w' v',
+    wrun retries w1 tr' = Some w' /\ forallb quiet tr' = true /\
+    log (sv w') = log (sv w) /\ position (ph (cl w')) = Some (Some v') /\
+    (forall ch, In ch (log (sv w')) -> c_rv ch <= v') /\
+    (forall ch, In ch (log (sv w')) -> covered (tr ++ WC LResume :: tr') ch).
+Proof. exact resume_catches_up. Qed.
+Print Assumptions C19_resume_catches_up.
+
+Example C19_catch_up_hypotheses_satisfiable :
+  exists w, wrun 1 (winit false 8) ex_trace = Some w /\ paused (cl w) = false /\ ph (cl w) = PWatch (Some 10) 1 /\
+            ph (cl w) <> PFail /\ ph (cl w) <> PDead /\ List.length (log (sv w)) = 3%nat /\ cur (sv w) = 11.
+Proof. exact catch_up_hypotheses. Qed.
+Print Assumptions C19_catch_up_hypotheses_satisfiable.
+
+Example C19_resume_from_latest_hypotheses_satisfiable :
+  exists s s', crun 1 (cinit false) (client_labels (firstn 11 ex_trace)) = Some s /\
+               cstep 1 s (LReqWatch (Some 10)) = Some s' /\ latest (client_labels (firstn 11 ex_trace)) = Some 10.
+Proof. exact resume_hypotheses. Qed.
+Print Assumptions C19_resume_from_latest_hypotheses_satisfiable.
+
+Example C19_unknown_error_hypotheses_satisfiable :
+  exists s s1, crun 0 (cinit false) (client_labels (firstn 7 ex_trace)) = Some s /\ (500 <> 410) /\
+               cstep 0 s (LLine (LnErr 500)) = Some s1 /\ ph s1 = PFail.
+Proof. exact error_hypotheses. Qed.
+Print Assumptions C19_unknown_error_hypotheses_satisfiable.
+
+Example C19_fresh_list_hypotheses_satisfiable :
+  exists s1 s2, crun 0 (cinit false) (client_labels (firstn 7 ex_trace) ++ [LPause]) = Some s1 /\ paused s1 = true /\
+                crun 0 s1 [LResume; LEnd EClosed] = Some s2 /\ ~ In LReqList [LEnd EClosed] /\ ph s2 = PLoop (Some 9) /\ stopper s2 = true.
+Proof. exact resume_after_pause_hypotheses. Qed.
+Print Assumptions C19_fresh_list_hypotheses_satisfiable.
+
+Example C19_lines_hypotheses_satisfiable :
+  jsonlines [[123; 125]; [10; 10; 49]; [50; 10]] = [[123; 125]; [49; 50]] /\
+  (forall l, In l [[123; 125]; [49; 50]] -> nonl l /\ l <> []).
+Proof. exact lines_hypotheses. Qed.
+Print Assumptions C19_lines_hypotheses_satisfiable.
 
 (* api.iter_jsonlines: the lines handed on do not depend on how the bytes arrive in chunks, and are exactly
    the non-empty newline-terminated pieces: no event line is lost, split or merged at a chunk boundary *)
